@@ -11,4 +11,30 @@ package grpc
 
 //@ func ConvertGrpcStatus
 //@ props C10
+//@ modifies nothing
 //@ ensures [documented-table] result == grpcHTTP(status.Convert(err).Code())
+
+// One call per ammo: the named method, the payload read against the method's input type, the ammo's metadata, the configured
+// timeout; exactly one sample whose code is the mapped call status (0 for an unknown method, 400 for a payload that does not fit).
+//@ func (g *Gun) shoot
+//@ props C10 C19 C20
+//@ nilsafe
+//@ requires ammo != nil && g.Aggr != nil && g.Stub != nil
+//@ ensures [exactly-one-sample-per-shot] ev(report) == old(ev(report)) + 1
+//@ ensures [unknown-method-is-not-called] imp(!has(g.Services, ammo.Call), calls(g.Stub.InvokeRpc) == 0)
+//@ ensures [payload-that-does-not-fit-is-not-sent] imp(calls(message.UnmarshalJSON) == 1 && result_of(message.UnmarshalJSON, 0) != nil, calls(g.Stub.InvokeRpc) == 0)
+//@ at call netsample.Acquire assert [tag-of-the-ammo] arg(tag) == ammo.Tag
+//@ at call json.Marshal assert [payload-of-the-ammo] arg(a0) == box(ammo.Payload)
+//@ at call dynamic.NewMessage assert [input-type-of-the-method] arg(a0) == result_of(method.GetInputType, 0)
+//@ at call message.UnmarshalJSON assert [payload-read-against-the-input-type] arg(a0) == result_of(json.Marshal, 0) && arg(recv) == result_of(dynamic.NewMessage, 0)
+//@ at call context.WithTimeout assert [configured-timeout] arg(a1) == ite(g.Conf.Timeout != 0, g.Conf.Timeout, defaultTimeout)
+//@ at call metadata.New assert [metadata-of-the-ammo] arg(a0) == ammo.Metadata
+//@ at call metadata.NewOutgoingContext assert [metadata-attached-to-the-call-context] arg(a0) == result_of(context.WithTimeout, 0) && arg(a1) == result_of(metadata.New, 0)
+//@ at call g.Stub.InvokeRpc assert [the-named-method-with-that-message-and-context] has(g.Services, ammo.Call) && method == g.Services[ammo.Call] && arg(a0) == result_of(metadata.NewOutgoingContext, 0) && arg(a2) == box(result_of(dynamic.NewMessage, 0))
+//@ at call ConvertGrpcStatus assert [status-of-the-call] arg(err) == result_of(g.Stub.InvokeRpc, 1)
+//@ at call sample.SetProtoCode assert [code-is-the-mapped-status] arg(code) == code && imp(calls(g.Stub.InvokeRpc) == 1, code == result_of(ConvertGrpcStatus, 0)) && imp(calls(g.Stub.InvokeRpc) == 0, code == 0 || code == 400)
+//@ at call g.Aggr.Report assert [the-sample-of-this-shot] arg(a0) == box(result_of(netsample.Acquire, 0))
+
+//@ func (g *Gun) Answ
+//@ trusted
+//@ modifies nothing
